@@ -323,6 +323,7 @@ class Merger:
                            for e in lhs])
                 else:
                     lhs.append(ele)
+                    tagless_lhs.append(cmp_val)
                 continue
             lhs.append(ele)
         return lhs
